@@ -146,6 +146,12 @@ def explore(ctx, spec, depth, max_dev=99, max_states=None, label=None):
     probs0 = case.check(w0, ("init",), None, None)
     for p in probs0:
         ctx.violation(p, {"engine": "seq", "spec": spec, "history": []})
+    if probs0:
+        # the initial state already violates the invariant: nothing reached
+        # from it would be attributable to an event
+        ctx.states += 1
+        ctx.cap("initial state of %s violates the invariant: not expanded" % (label or core.sig_key(spec)[:80]))
+        return set()
     seen = {case.canon(w0)}
     frontier = [([], 0)]
     label = label or core.sig_key(spec)[:80]
